@@ -164,7 +164,15 @@ func runProperty(id, tier string, seed int64, prog *load.Program, dump bool, onl
 		thorough(id, p, run)
 	}
 	if onlyRule == "" {
-		run.Controls = append(run.Controls, runControls(id, tier)...)
+		baseline := map[string]bool{}
+		for _, r := range run.Results {
+			for _, o := range r.Obligations {
+				if o.Status != report.Discharged {
+					baseline[o.Key] = true
+				}
+			}
+		}
+		run.Controls = append(run.Controls, runControlsFor(id, tier, baseline)...)
 	}
 	kf, err := report.LoadFindings(filepath.Join(verifDir, "known_findings.json"))
 	if err != nil {
